@@ -241,6 +241,7 @@ pub fn run_c20(p: &Params) -> Outcome {
         poll_pct: 25,
         drop_vec_pct: 15,
         drop_all_pm: 15,
+        init_max: 5,
     };
     let nt_vec = |f: &crate::engine_vec::Facts| f.msgs >= 1 && f.subs >= 1;
     let gen_a = "c20-vec";
@@ -279,6 +280,7 @@ pub fn run_c20(p: &Params) -> Outcome {
         close_pm: 15,
         drop_pm: 15,
         trav: true,
+        init_max: 6,
     };
     let gen_b = "c20-adp";
     out.merge(p.cases(gen_b, p.n(40_000, 1_000_000), |i, out| {
